@@ -154,6 +154,8 @@ struct Builder{
 	bool inexact;       // contains exp/sqrt: values are not exact
 	std::string paramOracle;   // parameter bookkeeping of composed kernels (ProductKernel::m_numberOfParameters)
 	std::vector<ScaledKernel<I>*> scaled;   // the ScaledKernel objects in pre-order (op setfactor)
+	std::vector<WeightedSumKernel<I>*> wsums; // the WeightedSumKernel / SubrangeKernel objects, inner ones first (op adaptall)
+	K* keepW(K* k){ if(WeightedSumKernel<I>* w = dynamic_cast<WeightedSumKernel<I>*>(k)) wsums.push_back(w); return keep(k); }
 	Builder(): hasNorm(false), inexact(false){}
 	K* keep(K* k){ pool.push_back(boost::shared_ptr<K>(k)); return k; }
 	K* parse(std::vector<std::string> const& t, std::size_t& p){
@@ -164,6 +166,15 @@ struct Builder{
 		if(op == "poly"){
 			if(p + 2 > t.size() || !parseNat(t[p], n) || !parseVal(t[p+1], v)) return 0;
 			p += 2; return keep(new PolynomialKernel<I>((unsigned)n, v, false, false));
+		}
+		// unconstrained parameter encodings (parameter = log of the value); same kernel values
+		if(op == "polyu"){
+			if(p + 2 > t.size() || !parseNat(t[p], n) || !parseVal(t[p+1], v)) return 0;
+			p += 2; return keep(new PolynomialKernel<I>((unsigned)n, v, false, true));
+		}
+		if(op == "gaussu"){
+			if(p + 1 > t.size() || !parseVal(t[p], v)) return 0;
+			p += 1; inexact = true; return keep(new GaussianRbfKernel<I>(v, true));
 		}
 		if(op == "mono"){
 			if(p + 1 > t.size() || !parseNat(t[p], n)) return 0;
@@ -209,7 +220,7 @@ struct Builder{
 			}
 			WSumDirect<I>* k = new WSumDirect<I>(ks);
 			k->setDirect(w, sum);
-			return keep(k);
+			return keepW(k);
 		}
 		if(op == "wsump"){
 			if(p + 1 > t.size() || !parseNat(t[p], n) || n == 0) return 0;
@@ -221,7 +232,7 @@ struct Builder{
 			WeightedSumKernel<I>* k = new WeightedSumKernel<I>(ks);
 			k->setParameterVector(ps);
 			inexact = true;
-			return keep(k);
+			return keepW(k);
 		}
 		if(op == "prod"){
 			if(p + 1 > t.size() || !parseNat(t[p], n)) return 0;
@@ -264,7 +275,7 @@ struct Builder{
 			}
 			inexact = true;
 			K* k = MakeSubk<I>::make(ks, ranges, ps);
-			return k ? keep(k) : 0;
+			return k ? keepW(k) : 0;
 		}
 		if(op == "sub"){
 			if(p + 2 > t.size() || !parseNat(t[p], a) || !parseNat(t[p+1], b)) return 0;
@@ -556,6 +567,30 @@ struct Session{
 		}
 		return out;
 	}
+	// op `gderiv s1 s2 ..`: calculateKernelMatrixParameterDerivative over the dataset batched as given, with a fixed
+	// symmetric weight matrix, against ONE weightedParameterDerivative call on the unbatched data (which dcheck ties
+	// to finite differences): the Gram-level derivative must not depend on the batching.  Oracle only (1e-9 relative).
+	std::string gramDeriv(std::vector<std::size_t> const& sizes) const{
+		std::size_t n = 0; for(std::size_t q: sizes){ if(q == 0) return "bad-op"; n += q; }
+		if(n > pts.size() || n == 0) return "bad-op";
+		if(!k->hasFirstParameterDerivative()) return "ok";
+		RealMatrix W(n,n);
+		for(std::size_t i = 0; i != n; ++i) for(std::size_t j = 0; j != n; ++j) W(i,j) = (double)(((i+1)*(j+1)*7 + (i+j)*3) % 5) - 2;
+		Data<I> d = dataset(0, sizes);
+		RealVector g = calculateKernelMatrixParameterDerivative(*k, d, W);
+		typename Batch<I>::type all = batch(0, n);
+		boost::shared_ptr<State> st = k->createState();
+		RealMatrix M; k->eval(all, all, M, *st);
+		RealVector ref; k->weightedParameterDerivative(all, all, W, *st, ref);
+		std::string out = "ok";
+		if(g.size() != k->numberOfParameters() || ref.size() != g.size()) return out + " !oracle gram-gradient-size";
+		double scale = 1; for(std::size_t p = 0; p != g.size(); ++p) if(std::isfinite(ref(p))) scale = std::max(scale, std::fabs(ref(p)));
+		for(std::size_t p = 0; p != g.size(); ++p)
+			if(!(std::fabs(g(p) - ref(p)) <= 1e-9*scale)){
+				std::ostringstream os; os << " !oracle gram-param-derivative p=" << p << " batched=" << g(p) << " unbatched=" << ref(p); return out + os.str();
+			}
+		return out;
+	}
 	// generic op dispatch; returns false if the op is not a session op
 	bool dispatch(std::vector<std::string> const& t, std::string& out) const{
 		std::string const& op = t[0];
@@ -569,6 +604,10 @@ struct Session{
 			out = op == "fdistb" ? fdistBlock(a[0], a[1], a[2], a[3]) : block(a[0], a[1], a[2], a[3], op == "sblock"); return true;
 		}
 		if(op == "flags"){ out = t.size() == 1 ? flags() : "bad-op"; return true; }
+		if(op == "gderiv"){
+			if(!vh::allNat(t, 1, a) || a.empty()){ out = "bad-op"; return true; }
+			out = gramDeriv(a); return true;
+		}
 		if(op == "gram"){
 			double reg;
 			if(t.size() < 3 || !parseVal(t[1], reg) || !vh::allNat(t, 2, a)){ out = "bad-op"; return true; }
@@ -718,6 +757,14 @@ int run(){
 				else{ builder->scaled[i]->setFactor(f); out = "ok" + vs.claimOracle(*vs.k); }
 			}
 			else if(vs.k && t[0] == "setparams") out = vs.setParams(t);
+			else if(vs.k && t[0] == "adaptall"){
+				// every sub-kernel of every weighted sum becomes part of the parameter vector (inner sums first, the
+				// outer sums cache the parameter counts of their sub-kernels); not modelled: oracle-only cases
+				for(WeightedSumKernel<I>* w: builder->wsums) w->setAdaptiveAll(true);
+				std::ostringstream os; os << "ok np=" << vs.k->numberOfParameters();
+				out = os.str();
+				if(vs.k->parameterVector().size() != vs.k->numberOfParameters()) out += " !oracle parameter-vector-size";
+			}
 			else if(vs.k && t[0] == "unitvar"){
 				std::vector<std::size_t> a;
 				if(!vh::allNat(t, 1, a) || a.empty()) out = "bad-op"; else out = unitVar(vs, a);
